@@ -454,12 +454,28 @@ def prune_dataflow_cache(world: World):
     if not world.use_cache:
         return
     min_cache_time = min(s.last_step.time for s in world.sims.values())
+    # Output that is pulled over a time-shifted connection is needed
+    # until its destination has progressed correspondingly further.
+    keep_from: Dict[SimRunner, int] = {}
+    for dest_sim in world.sims.values():
+        for src_sim, delay in dest_sim.pulled_inputs:
+            keep_from[src_sim] = min(
+                keep_from.get(src_sim, min_cache_time),
+                dest_sim.last_step.time - delay.tiers[0],
+            )
     for sim in world.sims.values():
         if sim.outputs:
+            threshold = keep_from.get(sim, min_cache_time)
+            # If there is no output at the threshold itself, the newest
+            # output before it is still the valid one there, so it needs
+            # to be kept as well.
+            older = [time for time in sim.outputs if time <= threshold]
+            if older:
+                threshold = max(older)
             sim.outputs = {
                 time: cache
                 for time, cache in sim.outputs.items()
-                if time >= min_cache_time
+                if time >= threshold
             }
 
 
